@@ -623,6 +623,9 @@ def type_level(e, depth=0, body=None):
             return True
         if nm in ('branch', 'unwrap_or', 'checked_mul', 'checked_div', 'checked_add', 'saturating_mul', 'saturating_add', 'min', 'max') and all(tl(a) for a in e[2]):
             return True
+        # integer conversions of type-level values (`usize::from(size_of::<F>() > 0)`)
+        if nm in ('from', 'into') and len(e[2]) == 1 and re.search(r'core::convert::(From|Into)', e[1] or '') and tl(e[2][0]):
+            return True
         return False
     return False
 
